@@ -136,3 +136,109 @@ pub fn gen_big(args: &Args) {
         id += 1;
     }
 }
+
+// ---------------------------------------------------------------------------
+// Floats: every comparison of every pair of a lattice that includes signed zeros, infinities,
+// NaN and subnormals; arithmetic of the special values (validated by TV_Float)
+// ---------------------------------------------------------------------------
+pub fn float_fields(x: f64) -> Value {
+    let b = x.to_bits();
+    json!({"s":(b >> 63) & 1,"e":(b >> 52) & 0x7ff,"h":(b >> 26) & 0x3ffffff,"l":b & 0x3ffffff})
+}
+
+fn float_text(x: f64) -> String {
+    if x.is_nan() {
+        return "(0.0 / 0.0)".into();
+    }
+    if x.is_infinite() {
+        return if x > 0.0 { "(1.0 / 0.0)".into() } else { "((-1.0) / 0.0)".into() };
+    }
+    let a = x.abs();
+    // Rust prints floats without exponent: every finite float has a literal
+    let mut t = format!("{}", a);
+    if !t.contains('.') {
+        t.push_str(".0");
+    }
+    if x.is_sign_negative() {
+        format!("(-{t})")
+    } else {
+        t
+    }
+}
+
+fn observe_float(text: &str) -> Value {
+    nederlang::verif::set_budget(Some(200_000));
+    let r = catch_unwind(AssertUnwindSafe(|| nederlang::eval(text)));
+    let _ = nederlang::verif::take_fault();
+    match r {
+        Ok(Ok(o)) => match o.tag() {
+            Type::Float => {
+                let mut j = float_fields(o.as_f64());
+                j["c"] = json!("F");
+                j
+            }
+            Type::Bool => json!({"c":"B","v":o.as_bool()}),
+            _ => json!({"c":"X","what":"other-type"}),
+        },
+        Ok(Err(e)) => {
+            let (k, _) = error_kind(&e);
+            json!({"c":"E","kind":k})
+        }
+        Err(_) => json!({"c":"X","what":"panic","loc":take_panic_loc()}),
+    }
+}
+
+pub fn float_lattice(seed: u64, extra: u64) -> Vec<f64> {
+    let mut v = vec![0.0, -0.0, 1.0, -1.0, 0.5, 1.5, -2.25, 3.0, 0.1, -0.1, 1e-5, 123456789.125, 1e15, 9007199254740993.0,
+                     f64::INFINITY, f64::NEG_INFINITY, f64::NAN, f64::MAX, f64::MIN, f64::MIN_POSITIVE, 5e-324, -5e-324,
+                     2.0, -3.75, 1.0000000000000002];
+    let mut rng = StdRng::seed_from_u64(seed ^ 0xf10a7);
+    for _ in 0..extra {
+        let x = f64::from_bits(rng.gen());
+        if x.is_finite() {
+            v.push(x);
+        }
+    }
+    v
+}
+
+pub fn gen_float(args: &Args) {
+    crate::run::install_quiet_panic_hook();
+    nederlang::verif::reset();
+    let seed = args.num("seed", 1);
+    let out = args.get("out", "/dev/stdout");
+    let shard = args.num("shard", 0);
+    let shards = args.num("shards", 1);
+    let extra = args.num("extra", 10);
+    let first_id = args.num("first-id", 1);
+    let mut f = std::io::BufWriter::new(std::fs::File::create(&out).expect("create out"));
+    let lat = float_lattice(seed, extra);
+    let mut id = first_id;
+    let mut k = 0u64;
+    for &a in &lat {
+        for &b in &lat {
+            k += 1;
+            if k % shards != shard {
+                continue;
+            }
+            let (ta, tb) = (float_text(a), float_text(b));
+            let mut cmp = serde_json::Map::new();
+            let mut ar = serde_json::Map::new();
+            for op in OPS {
+                let forms = [
+                    format!("{ta} {op} {tb}"),
+                    format!("functie f(x) {{ x {op} {tb} }} f({ta})"),
+                    format!("functie f(x) {{ {ta} {op} x }} f({tb})"),
+                ];
+                let v: Vec<Value> = forms.iter().map(|t| observe_float(t)).collect();
+                if ["+", "-", "*", "/", "%"].contains(&op) {
+                    ar.insert(op.to_string(), Value::Array(v));
+                } else {
+                    cmp.insert(op.to_string(), Value::Array(v));
+                }
+            }
+            writeln!(f, "{}", json!({"id":id,"a":float_fields(a),"b":float_fields(b),"at":ta,"bt":tb,"cmp":cmp,"ar":ar})).unwrap();
+            id += 1;
+        }
+    }
+}
